@@ -70,9 +70,9 @@ struct FileStamp {
     }
 };
 
-template<class K, size_t Eps, size_t EpsRec>
-struct MappedProbe : pgm::MappedPGMIndex<K, Eps, EpsRec> {
-    using B = pgm::MappedPGMIndex<K, Eps, EpsRec>;
+template<class K, size_t Eps, size_t EpsRec, class Floating = float>
+struct MappedProbe : pgm::MappedPGMIndex<K, Eps, EpsRec, Floating> {
+    using B = pgm::MappedPGMIndex<K, Eps, EpsRec, Floating>;
     using B::B;
     size_t hdr_n() const { return this->n; }
     K hdr_first_key() const { return this->first_key; }
@@ -112,9 +112,9 @@ std::vector<K> gen_mapped_keys(Rng &r, size_t eps, size_t maxn, std::string &fam
     return out;
 }
 
-template<class K, size_t Eps, size_t EpsRec>
+template<class K, size_t Eps, size_t EpsRec, class Floating = float>
 void mapped_case(Ctx &c) {
-    using M = MappedProbe<K, Eps, EpsRec>;
+    using M = MappedProbe<K, Eps, EpsRec, Floating>;
     std::vector<K> d;
     std::string family;
     std::vector<int> order; // construction order, see below
@@ -290,5 +290,7 @@ void mapped_case(Ctx &c) {
 
 #define VF_MAPPED(K, E, ER)                                                                                            \
     VF_REGISTER(std::string("mapped/") + ::vf::KT<K>::name() + ",e" #E ",er" #ER, (&::vf::mapped_case<K, E, ER>), 1.0)
+#define VF_MAPPED_F(K, E, ER, F)                                                                                       \
+    VF_REGISTER(std::string("mapped/") + ::vf::KT<K>::name() + ",e" #E ",er" #ER "," #F, (&::vf::mapped_case<K, E, ER, F>), 1.0)
 
 } // namespace vf
